@@ -63,6 +63,9 @@ static noreturn void verif_exit(int code) {
 #define VCOVER() do {} while (0)
 #endif
 #define HAVOC_IN() do { IN = nondet_IN(); } while (0)
+#ifndef TRY
+#define TRY(stmt) do { stmt; } while (0)     /* under cbmc a diagnostic ends the path (see VERIF_ON_EXIT) */
+#endif
 #ifndef VERIF_ON_EXIT
 #define VERIF_ON_EXIT(code)
 #endif
